@@ -52,6 +52,37 @@ fn main() {
         out_line(&format!("{}", history::digest_of_reference()));
         std::process::exit(0);
     }
+    if args.len() >= 4 && args[2] == "--probe-gamma" {
+        // diagnostic: scan p = (i+1/2)/n for one shape and report Err / non-positive results by quantile domain
+        let a: f64 = args[3].parse().unwrap();
+        let n = 2_000_000u64;
+        let (mut err_in, mut err_out, mut worst) = (0u64, 0u64, 0.0f64);
+        let (floor, _) = oracle::special::inc_gamma(a, 1e-13);
+        for i in 0..n {
+            let p = (i as f64 + 0.5) / n as f64;
+            match kernel::call_gamma(a, p).0 {
+                kernel::GammaObs::Ok(l) => {
+                    let (pp, qq) = oracle::special::inc_gamma(a, l);
+                    let e = if p <= 0.5 { (pp - p).abs() } else { (qq - (1.0 - p)).abs() };
+                    if p >= floor && e > worst {
+                        worst = e;
+                    }
+                }
+                _ => {
+                    if p >= floor {
+                        err_in += 1;
+                        if err_in < 5 {
+                            eprintln!("Err in domain at p = {p:e}");
+                        }
+                    } else {
+                        err_out += 1;
+                    }
+                }
+            }
+        }
+        eprintln!("a = {a:e}: floor p = {floor:e}; Err/panic in domain {err_in}, outside {err_out}; worst accuracy {worst:e}");
+        std::process::exit(0);
+    }
     if args.len() >= 3 && args[2] == "--history-worker" {
         let tier_cap = 3000.0;
         set_time_cap(tier_cap);
